@@ -1211,6 +1211,21 @@ class MustFacts:
             return reads(a[4]) | reads(a[5]), called_names(a[4]) | called_names(a[5])
         return reads(a[3]), called_names(a[3])
 
+    def _this_dependent(self, a):
+        """some call inside the fact looks at this object (a member call on this or on one of its members, or an
+        argument that mentions this): a static/free function over locals — a validator on (pointer, size) — does not"""
+        nodes = [a[4], a[5]] if a[0] == "cmp" else [a[3]]
+        for root in nodes:
+            for x in walk(root):
+                if x.get("k") == "this":
+                    return True
+                if x.get("k") == "member" and x.get("dk") == "field" and strip(x.get("base", {})).get("k") == "this":
+                    return True
+                if x.get("k") == "call" and "obj" not in x and (x.get("callee") or {}).get("rec") and not (x.get("callee") or {}).get("static") and \
+                        x.get("ck") == "member":
+                    return True
+        return False
+
     def _element_kills(self, n):
         """(set of decl keys written, kills_this_fields: bool) for one CFG element."""
         k = n.get("k")
@@ -1267,8 +1282,8 @@ class MustFacts:
                 rd, cl = self._fact_reads(cur[key])
                 if rd & w:
                     del cur[key]
-                elif tf and (any("::" in d for d in rd) or cl):
-                    # a non-const call on this may change members / results of member calls
+                elif tf and (any("::" in d for d in rd) or (cl and self._this_dependent(cur[key]))):
+                    # a non-const call on this may change members / results of calls that look at this object
                     del cur[key]
         return cur
 
